@@ -26,6 +26,8 @@ def lin(v):
     """linear form {base: coefficient, 1: constant} of an address expression (casts ignored), or None"""
     if isinstance(v, int) and not isinstance(v, bool):
         return {1: v}
+    if isinstance(v, Ptr):
+        return {('ptr', id(v.c)): 1, 1: v.k if isinstance(v.k, int) else 0}
     if not is_sym(v):
         return None
     if v.op == 'cast':
